@@ -321,6 +321,56 @@ def spec_output(P, name, args, assumptions=None):
 
 
 
+def cli_defaults(P, modname="atsim.potentials.tools.potable"):
+    """{dest: default} of every add_argument(...) call of the command line module, read from the source:
+    store_true -> False, store_false -> True, an explicit constant default=, otherwise None (argparse's rule)"""
+    import ast as _ast
+    m = P.module(modname)
+    out = {}
+    for n in _ast.walk(m.tree):
+        if not (isinstance(n, _ast.Call) and isinstance(n.func, _ast.Attribute) and n.func.attr == "add_argument"):
+            continue
+        kw = dict((k.arg, k.value) for k in n.keywords if k.arg)
+        flags = [a.value for a in n.args if isinstance(a, _ast.Constant) and isinstance(a.value, str)]
+        if not flags:
+            continue
+        if "dest" in kw and isinstance(kw["dest"], _ast.Constant):
+            dest = kw["dest"].value
+        else:
+            longs = [f for f in flags if f.startswith("--")]
+            dest = (longs[0][2:] if longs else flags[0].lstrip("-")).replace("-", "_")
+        default = NONE
+        act = kw.get("action")
+        if isinstance(act, _ast.Constant) and act.value == "store_true":
+            default = FALSE
+        elif isinstance(act, _ast.Constant) and act.value == "store_false":
+            default = TRUE
+        if "default" in kw and isinstance(kw["default"], _ast.Constant):
+            dv = kw["default"].value
+            default = Num(ep.const(dv)) if isinstance(dv, (int, float)) and not isinstance(dv, bool) else Const(dv)
+        out[dest] = default
+    if not out:
+        raise AnalysisError("no add_argument() call found in %s" % modname)
+    return out
+
+
+class ArgsModel(object):
+    """an argparse.Namespace as the command line parser of the package would produce it: the given options over the
+    defaults of every declared option"""
+    def __init__(self, defaults, given):
+        self._defaults, self._given = defaults, given
+
+    def __getattr__(self, name):
+        if name.startswith("get_"):
+            dest = name[4:]
+            d = self.__dict__
+            if dest in d["_given"]:
+                return lambda J: d["_given"][dest]
+            if dest in d["_defaults"]:
+                return lambda J: d["_defaults"][dest]
+        raise AttributeError(name)
+
+
 class _Delivers(object):
     """stand-in for a builder object: its documented result property hands out the named parameter"""
     def __init__(self, prop, value, received):
